@@ -14,7 +14,7 @@ def tab_findings():
     rows = ["| Property | Mechanism (classifier key) | Status | What fails |", "|---|---|---|---|"]
     for k in findings():
         what = re.sub(r"^fixed: property=\S+ \S+ ", "", k["what"]).replace("|", "/")
-        st = "fixed in %s" % k["commit"] if k["status"] == "fixed" else "open (known finding)"
+        st = "fixed in %s" % k.get("commit", "(see what)") if k["status"] == "fixed" else "open (known finding)"
         rows.append("| %s | `%s` | %s | %s |" % (k["property"], k["mechanism"], st, what[:300]))
     return "\n".join(rows)
 
